@@ -43,6 +43,8 @@ FIXMAP = {
  'one-to-one match reports several matches': ['C05'],
  'sum and avg seed the accumulator': ['C04', 'C05'],
  'a cancelled evaluation is reported': ['C14'],
+ 'do not propagate matchers across a binary operator with an empty on()': ['C09'],
+ 'merge-selects keeps further matchers on the metric name': ['C09'],
 }
 log = subprocess.run(['git', '-C', '/repo', 'log', '--format=%h %s', '--reverse'], capture_output=True, text=True).stdout.strip().split('\n')
 p = '/verif/known_findings.json'
